@@ -15,7 +15,7 @@ from concurrent.futures import ThreadPoolExecutor
 
 VERIF = os.path.dirname(os.path.dirname(os.path.abspath(__file__)))
 REPO = os.environ.get("VERIF_REPO", "/repo")
-EXTRACT = os.path.join(VERIF, "tools/vx-extract/target/release/vx-extract")
+EXTRACT = os.environ.get("VX_EXTRACT", os.path.join(VERIF, "tools/vx-extract/target/release/vx-extract"))
 WORK = os.environ.get("VERIF_WORK", os.path.join(VERIF, "work"))
 
 SEMANTIC = (
